@@ -56,7 +56,7 @@ static Spec gen_spec(Rng& r, uint64_t maxlog, uint32_t fnmask) {
   s.p1 = 0;
   if (s.fn == REIM_FROM64_S) s.p1 = (uint32_t)r.below(51);
   if (s.fn == REIM_TO64_S) s.p1 = (r.next() & 1) ? 40 + (uint32_t)r.below(11) : 51 + (uint32_t)r.below(13);  // both sides of the 50-bit variant switch
-  if (s.fn == CPLX_TO_TNX32_S) s.p1 = (uint32_t)r.below(19);
+  if (s.fn == CPLX_TO_TNX32_S) s.p1 = r.below(3) ? (uint32_t)r.below(19) : 19 + (uint32_t)r.below(12);  // log2overhead: the fast range 0..18 and beyond it (up to 30: x*2^32/d must fit the reference kernel's int64)
   if (s.fn == M_NORM) s.p1 = 1 + (uint32_t)r.below(62);
   s.s1 = r.below(4); s.s2 = r.below(4); s.nrows = 1 + r.below(3); s.ncols = 1 + r.below(3);
   s.mtype = (int)(r.next() & 1);
@@ -319,7 +319,7 @@ std::vector<Sub> vh_subs() {
         sp.fn = prev.fn; sp.logm = prev.logm; sp.s1 = prev.s1; sp.s2 = prev.s2; sp.nrows = prev.nrows; sp.ncols = prev.ncols; sp.mtype = prev.mtype;
         if (sp.fn == REIM_TO64_S) sp.p1 = (r.next() & 1) ? 40 + (uint32_t)r.below(11) : 51 + (uint32_t)r.below(13);
         else if (sp.fn == REIM_FROM64_S) sp.p1 = (uint32_t)r.below(51);
-        else if (sp.fn == CPLX_TO_TNX32_S) sp.p1 = (uint32_t)r.below(19);
+        else if (sp.fn == CPLX_TO_TNX32_S) sp.p1 = r.below(2) ? (uint32_t)r.below(19) : 19 + (uint32_t)r.below(12);
         else if (sp.fn == M_NORM) sp.p1 = 1 + (uint32_t)r.below(62);
         else sp.p1 = prev.p1;
       }
